@@ -13,8 +13,11 @@ from checks import _gov
 
 def run(ctx):
     q = ctx.quick
-    summ, altsp = _gov.run_gov(ctx, "C32", "C32", "Governance_C32_gen_quick.cfg" if q else "Governance_C32_gen_thorough.cfg",
-                               nv=4 if q else 5, depth=3 if q else 4, cap=1500 if q else 6000)
+    # the quick configuration is part of both tiers (its exploration of the real contracts around the deviations is
+    # complete or nearly so); the thorough tier adds the larger configuration
+    _gov.run_gov(ctx, "C32", "C32", "Governance_C32_gen_quick.cfg", nv=4, depth=3, cap=1500)
+    if not q:
+        _gov.run_gov(ctx, "C32", "C32", "Governance_C32_gen_thorough.cfg", nv=5, depth=4, cap=6000)
     return ctx.finish(rule="P-EDGE: every (model state, action) edge of Governance.tla in mode C32 replayed on the real contracts; "
                       "deviating real executions and a bounded exploration from each deviating state are judged by TLC (GovJudge) with "
                       "the PropC32 monitor. distinct_nontrivial = distinct (action, result, post-state) of conforming edges whose call "
